@@ -171,6 +171,14 @@ fn gen_expr(r: &mut Rng, item: &MVal, root: &MVal, cfg: &GenCfg, depth: usize, a
     let base = if from_cur { item } else { root };
     let steps = simple_steps(r, base, 2);
     if r.chance(1, 4) {
+        // exists() evaluates a full path, which may itself end in a filter
+        let mut steps = steps;
+        if depth < 2 && r.chance(1, 4) {
+            let p = MPath { steps: steps.clone(), predicate: None };
+            let reached = model::select(base, &p, 0);
+            let inner_item = reached.first().cloned().unwrap_or(MVal::Null);
+            steps.push(Step::Filter(gen_expr(r, &inner_item, root, cfg, depth + 1, true)));
+        }
         return MExpr::Exists(from_cur, steps);
     }
     // literal: prefer a scalar actually reachable so that the comparison can succeed
@@ -214,7 +222,8 @@ pub fn gen_path(r: &mut Rng, doc: &MVal, cfg: &GenCfg, filters: bool) -> MPath {
         return MPath { steps: vec![], predicate: Some(gen_expr(r, doc, doc, cfg, 0, false)) };
     }
     let mut steps: Vec<Step> = vec![];
-    let nsteps = r.urange(0, 4);
+    // deep documents get paths that can follow them down
+    let nsteps = if doc.depth() > 8 && r.chance(1, 2) { r.urange(4, 14) } else { r.urange(0, 4) };
     for _ in 0..nsteps {
         // representative item: the first item selected so far
         let sofar = MPath { steps: steps.clone(), predicate: None };
